@@ -35,7 +35,7 @@ class C07(vlib.Check):
     rule = ("seeded fingerprints of the three kinds (bits over powers of two up to 2^32 and non-powers for the "
             "rejection paths; index sets empty/sparse/low/high/colliding/dense), folded to every admissible and "
             "several inadmissible lengths with both methods, linked on/off, counts_method sum/max/min, one- and "
-            "two-step; a case is non-trivial when the fold succeeds on a non-empty fingerprint; distinct by "
+            "two-step; 300 - 300 000 on-bits colliding on 1 - 8 positions; a case is non-trivial when the fold succeeds on a non-empty fingerprint; distinct by "
             "(kind, bits, target, method, indices)")
     trusted_base = ["NumPy unique / log2 / int64 casts (compared on every run)"]
     assumptions = ["IEEE division and log2 of an exact power of two are exact (the float test in fold agrees with b*2^n=a)"]
@@ -71,6 +71,17 @@ class C07(vlib.Check):
                 t2 = rng.choice([x for x in targets if x <= t])
                 self.count("two-step")
                 yield {"t": "fold2", "fp": fp, "mid": t, "bits": t2, "method": method}
+        # many on-bits folded onto few positions: more than 255 / 65 535 of them collide on one position (what a narrow
+        # accumulator would hold), counts of one and larger
+        for non, tb in ([(300, 1), (70000, 1), (70000, 8), (2000, 4)] if self.tier == "quick" else
+                        [(300, 1), (70000, 1), (70000, 8), (2000, 4), (140000, 2), (66000, 1), (1000, 1), (300000, 4)]):
+            bits = rng.choice([2 ** 20, 2 ** 32])
+            idx = sorted(rng.sample(range(bits), non))
+            kind = rng.choice(["bit", "count", "count"])
+            cnt = [] if kind == "bit" else [[i, rng.choice(["1", "1", "2", "3"])] for i in idx]
+            self.count("many-collisions")
+            yield {"t": "fold", "fp": {"kind": kind, "bits": bits, "level": 5, "idx": idx, "cnt": cnt}, "bits": tb, "method": rng.choice([0, 1]),
+                   "linked": rng.random() < 0.5, "cm": "sum"}
         # several folds of ONE object (the linked results are cached on it): each must equal the fold of a fresh copy
         for _ in range(120 if self.tier == "quick" else 1500):
             bits = rng.choice([64, 256, 1024, 4096, 2 ** 32])
